@@ -94,10 +94,12 @@ def balanced(tag: str, seq: tuple[str, ...]) -> bool:
     return not stack
 
 
-def skeletons(tag: str, max_len: int, first: Optional[int] = None) -> Iterator[tuple[tuple[int, ...], str, bool]]:
+def skeletons(tag: str, max_len: int, first: Optional[int] = None,
+              joiner_max_len: int = 99) -> Iterator[tuple[tuple[int, ...], str, bool]]:
     """All sequences of 1..max_len pieces of the tag's alphabet x joiner x trailer.
 
-    Yields (identity, source, is_unbalanced).  ``first`` restricts to one first piece (sharding)."""
+    Yields (identity, source, is_unbalanced).  ``first`` restricts to one first piece (sharding);
+    the "text between the tags" variant is only generated for sequences of <= joiner_max_len pieces."""
     alpha = tag_alphabet(tag)
     idx = range(len(alpha))
     firsts = idx if first is None else (first,)
@@ -108,7 +110,7 @@ def skeletons(tag: str, max_len: int, first: Optional[int] = None) -> Iterator[t
                 pieces = tuple(alpha[i] for i in combo)
                 unb = not balanced(tag, pieces)
                 for ji, j in enumerate(JOINERS):
-                    if n == 1 and ji:
+                    if ji and (n == 1 or n > joiner_max_len):
                         continue
                     body = j.join(pieces)
                     for ti, t in enumerate(TRAILERS):
